@@ -25,6 +25,8 @@ import (
 const probePath = "/zprobe.jet"
 const leavePath = "/zleave.jet"
 
+var reInner = regexp.MustCompile(`<inner:([^>]*)>`)
+
 var reTwin = regexp.MustCompile(`<twin:([^=|>]*)=([^=|>]*)\|([^=|>]*)=([^=|>]*)>`)
 
 // stateProbeSource prints everything a fresh runtime must not have.
@@ -48,6 +50,8 @@ func stateProbeSource(w *gen.World) string {
 	b.WriteString(`<maps:{{exec("` + leavePath + `")}}{{range root.NoMap}}LEFTOVER{{else}}empty{{end}}|{{range names}}{{.}}{{end}}>`)
 	// two types of one shape: a field name resolves alike on both, whenever it is evaluated
 	b.WriteString("<twin:{{root.Col.Name}}={{root.Col2.Name}}|{{root.Col.Only}}={{root.Col2.Only}}>")
+	// the embedded struct reached by its own name, after its embedder was resolved: what the data holds
+	b.WriteString("<inner:{{try}}{{root.Col.Inner.Name}}|{{root.Col.Inner.Only}}{{catch}}FAILED{{end}}>")
 	b.WriteString("<blocks:")
 	seen := map[string]bool{}
 	for _, bi := range w.Blocks {
@@ -164,6 +168,9 @@ func RunC10(env *sim.Env) {
 		}
 		if m := reTwin.FindStringSubmatch(o.Out); m != nil && (m[1] != m[2] || m[3] != m[4]) {
 			env.Violate("alone-run-equality", "residue:same-shape-types-resolve-differently", "call %q: two struct types of one shape and one content render %s: what a field name resolves to depends on what the process had rendered before\nhistory: %s", call.String(), sim.Q(m[0]), strings.Join(hist[max(0, len(hist)-4):], " ; "))
+		}
+		if m := reInner.FindStringSubmatch(o.Out); m != nil && m[1] != "embedded|only" {
+			env.Violate("alone-run-equality", "residue:embedded-struct-fields-resolve-wrongly", "call %q renders %s: the fields of the embedded struct hold \"embedded\" and \"only\" - what they resolve to depends on which struct type the process resolved first\nhistory: %s", call.String(), sim.Q(m[0]), strings.Join(hist[max(0, len(hist)-4):], " ; "))
 		}
 		if o.VarsChanged != "" {
 			env.Violate("inputs-untouched", "caller-varmap-changed", "call %q: Execute changed the VarMap the caller passed in (%s); a caller that keeps its VarMap gets another rendering from the next Execute with the same inputs.\nhistory: %s", call.String(), o.VarsChanged, strings.Join(hist[max(0, len(hist)-4):], " ; "))
